@@ -81,6 +81,10 @@ func drawBase(rt *rapid.T) *base {
 	classes := append(append([]keys.Class{}, keys.Classes()...), legacyClass, envelopeClass, keys.Signature, keys.Signature, keys.Signature, keys.Hybrid, keys.Hybrid, keys.JWTSignature, keys.JWTSignature)
 	b := &base{class: rapid.SampledFrom(classes).Draw(rt, "class"), ks: &tinkpb.Keyset{}}
 	n := rapid.IntRange(1, 4).Draw(rt, "nkeys")
+	// the primary is chosen first: its key is drawn usable in four cases out of five, so that the
+	// factories (which need a working primary) get a primitive to exercise
+	p0 := rapid.IntRange(0, n-1).Draw(rt, "primary_index")
+	p := -1
 	used := map[uint32]bool{}
 	if b.class == envelopeClass {
 		drawEnvelopeBase(rt, b, n, used)
@@ -112,7 +116,13 @@ func drawBase(rt *rapid.T) *base {
 		var seenSecrets [][]byte
 		for i := 0; i < n; i++ {
 			label := fmt.Sprintf("k%d", i)
-			info := keys.Draw(rt, label, b.class)
+			var info *keys.Info
+			if i == p0 && gen.Uniform(rt, label+"_usable", 5) != 0 {
+				info = keys.DrawUsable(rt, label, b.class)
+				evid.Add("base_primary_drawn_usable", 1)
+			} else {
+				info = keys.Draw(rt, label, b.class)
+			}
 			if !serializable(info) {
 				// keys the constructors accept but the serializer refuses (RSA-SSA-PSS salt 0, AES-GCM with
 				// IV != 12 / tag != 16) cannot be part of a serialized keyset: take a usable key instead
@@ -154,11 +164,19 @@ func drawBase(rt *rapid.T) *base {
 			}
 			st := rapid.SampledFrom(knownStatuses).Draw(rt, label+"_status")
 			ent := entryOf(rt, k, id, st)
+			if i == p0 {
+				p = len(b.ks.Key)
+			}
 			b.ks.Key = append(b.ks.Key, ent)
 			b.desc = append(b.desc, info.Desc)
 		}
 	}
-	p := rapid.IntRange(0, len(b.ks.Key)-1).Draw(rt, "primary_index")
+	if p < 0 { // legacy / envelope classes, or the intended primary was dropped as duplicate material
+		p = p0
+		if p >= len(b.ks.Key) {
+			p = len(b.ks.Key) - 1
+		}
+	}
 	b.ks.Key[p].Status = tinkpb.KeyStatusType_ENABLED
 	b.ks.PrimaryKeyId = b.ks.Key[p].KeyId
 	return b
@@ -670,6 +688,21 @@ func opMismatch(rt *rapid.T, label string) func(m protoreflect.Message) string {
 				return ""
 			}
 			var nv []byte
+			if fpriv := field(m, "key_value"); name == "SlhDsaPublicKey" && fpriv != nil && fpriv.Kind() == protoreflect.BytesKind &&
+				len(m.Get(fpriv).Bytes()) == 2*len(old) && rapid.IntRange(0, 2).Draw(rt, label+"_slh_both") != 0 {
+				// The SLH-DSA private key value is SK.seed || SK.prf || PK.seed || PK.root: its tail EMBEDS the
+				// public key and the parser only compares the two copies.  The same bit flipped in both gives a
+				// keyset that is accepted with a public part that does not belong to the secret part - the case
+				// the property excepts from self-consistency (the no-panic and Public() clauses still apply).
+				priv := append([]byte{}, m.Get(fpriv).Bytes()...)
+				nv = append([]byte{}, old...)
+				bit := rapid.IntRange(0, len(old)*8-1).Draw(rt, label+"_pkbit")
+				nv[bit/8] ^= 1 << (bit % 8)
+				priv[len(priv)-len(old)+bit/8] ^= 1 << (bit % 8)
+				pm.Set(fk, protoreflect.ValueOfBytes(nv))
+				m.Set(fpriv, protoreflect.ValueOfBytes(priv))
+				return "mismatch: the same bit of PK.seed||PK.root flipped in .public_key.key_value and in the tail of the private key_value of SlhDsaPrivateKey"
+			}
 			if name == "Ed25519PublicKey" && len(old) == ed25519.PublicKeySize {
 				pub, _, err := ed25519.GenerateKey(rand.Reader)
 				if err != nil {
@@ -713,8 +746,9 @@ var someURLs = []string{
 
 // structuralOps produce (mostly) the defects the property lists as always rejected; materialOps
 // change one key and leave the keyset structure alone.
+// ("drop-all-keys" always gives the same empty keyset: it is drawn separately, in about one case in a hundred)
 var structuralOps = []string{
-	"drop-all-keys", "primary-absent", "primary-disabled", "primary-destroyed", "duplicate-id", "duplicate-primary-id",
+	"primary-absent", "primary-disabled", "primary-destroyed", "duplicate-id", "duplicate-primary-id",
 	"status-unknown", "prefix-unknown", "nil-entry", "status-known-other", "key-id",
 }
 
@@ -962,7 +996,7 @@ func TestStructuredMutation(t *testing.T) {
 	rapid.Check(t, func(rt *rapid.T) {
 		detrand.Seed(rapid.Uint64().Draw(rt, "entropy"))
 		b := drawBase(rt)
-		in := inputs{msg: gen.Bytes(rt, "msg", 40), aad: gen.Bytes(rt, "aad", 20)}
+		in := inputs{msg: gen.Bytes(rt, "msg", 40), aad: gen.Bytes(rt, "aad", 20), pick: uint64(gen.Uniform(rt, "exercised_reader", 1<<16))}
 		ad := gen.BytesOrNil(rt, "keyset_ad", 16)
 		ks := cloneKeyset(b.ks)
 		nops := rapid.SampledFrom([]int{1, 1, 1, 2, 2, 3}).Draw(rt, "nops")
@@ -976,7 +1010,10 @@ func TestStructuredMutation(t *testing.T) {
 			if structural {
 				ops = structuralOps
 			}
-			op := rapid.SampledFrom(ops).Draw(rt, label)
+			op := gen.Pick(rt, label, ops) // equal weights: which operator
+			if structural && gen.OneIn(rt, label+"_drop_all", 30) {
+				op = "drop-all-keys"
+			}
 			d := applyOp(rt, label, op, ks)
 			if d == "" { // not applicable to this keyset: take the first applicable general operator
 				for _, fop := range fallbackOps[structural] {
@@ -1006,7 +1043,8 @@ func TestStructuredMutation(t *testing.T) {
 			co, _ := ce.decide(b.ks, ad, cin)
 			evid.Add("control_"+co, 1)
 			if strings.HasPrefix(co, "rejected-at-read") {
-				evid.Add("control_base_rejected_at_read", 1)
+				// the generator builds keysets from key objects the constructors and the serializer accepted
+				ce.failf("harness: every reader rejects the UNMUTATED base keyset (%s): the generator does not produce valid keysets", co)
 			}
 		}
 		ptype := "-"
@@ -1096,7 +1134,7 @@ func TestPublicPartMismatch(t *testing.T) {
 			rt.Fatalf("harness: operator %s not applicable to %s", op, info.Desc)
 		}
 		kd.Value = nv
-		in := inputs{msg: gen.Bytes(rt, "msg", 40), aad: gen.Bytes(rt, "aad", 20)}
+		in := inputs{msg: gen.Bytes(rt, "msg", 40), aad: gen.Bytes(rt, "aad", 20), pick: uint64(gen.Uniform(rt, "exercised_reader", 1<<16))}
 		in.lite = hasSLH(ks) && rapid.IntRange(0, 3).Draw(rt, "slh_sign") != 0
 		ad := gen.BytesOrNil(rt, "keyset_ad", 16)
 		e := &env{f: rt, ksText: func() string { return ksText(ks) }}
